@@ -33,8 +33,10 @@ struct Scn {
     argv: Vec<String>,
     want_code: i32,
     want_files: BTreeMap<String, Vec<u8>>,
-    /// too many jobs for the schedule search: only part of the free-running sweep
+    /// not part of the schedule search: only of the free-running sweep
     sweep_only: bool,
+    /// the reader of stdout is gone: every diff the output thread tries to print fails
+    closed_stdout: bool,
 }
 
 fn run_once(id: usize, sc: &Scn, prefix: &[usize]) -> Result<Exec, String> {
@@ -158,9 +160,29 @@ fn scenarios(thorough: bool) -> Vec<Scn> {
                     want_code,
                     want_files,
                     sweep_only: false,
+                    closed_stdout: false,
                 });
             }
         }
+    }
+    // --check with the reader of stdout gone: the diff of the unformatted file cannot be printed (an error: status 2), and the
+    // error of the other file must not get lost whichever result the output thread sees first. Free-running sweep only
+    // (sampling): under the controlled scheduler these runs did not replay deterministically.
+    for ks in [vec![Kind::Unformatted, Kind::Unparseable], vec![Kind::Unparseable, Kind::Unformatted], vec![Kind::Unformatted, Kind::Missing], vec![Kind::Unformatted, Kind::Unformatted, Kind::Unparseable]] {
+        let mut tree = Tree::default();
+        let mut argv: Vec<String> = vec!["--color".into(), "Never".into(), "--num-threads".into(), "4".into(), "--check".into()];
+        let mut want_files = BTreeMap::new();
+        for (i, k) in ks.iter().enumerate() {
+            let p = format!("a{}.lua", i);
+            if *k != Kind::Missing {
+                // (the unparseable file is long: its result tends to arrive after the diff of the short one)
+                let b = if *k == Kind::Unparseable { format!("{}local x = = 1\n", "local y = 1\n".repeat(20000)).into_bytes() } else { k.bytes(i) };
+                tree.add(&p, &b);
+                want_files.insert(p.clone(), b);
+            }
+            argv.push(p);
+        }
+        v.push(Scn { desc: format!("C19 entries={} mode=check+closed-stdout", ks.iter().map(|k| k.letter()).collect::<String>()), tree, argv, want_code: 2, want_files, sweep_only: true, closed_stdout: true });
     }
     // one file reachable under two names (a symbolic link) from two directories with different configurations: it is one file,
     // processed once, with the configuration of the name met first — whatever the thread count and the schedule
@@ -182,7 +204,7 @@ fn scenarios(thorough: bool) -> Vec<Scn> {
             let mut want_files = BTreeMap::new();
             want_files.insert("one/m.lua".to_string(), content.clone());
             want_files.insert("two/m.lua".to_string(), content);
-            v.push(Scn { desc: format!("C19 one-file-two-names mode={} threads={}", if check { "check" } else { "write" }, nt), tree, argv, want_code: if check { 1 } else { 0 }, want_files, sweep_only: false });
+            v.push(Scn { desc: format!("C19 one-file-two-names mode={} threads={}", if check { "check" } else { "write" }, nt), tree, argv, want_code: if check { 1 } else { 0 }, want_files, sweep_only: false, closed_stdout: false });
         }
     }
     // many same-stem pairs x.lua / x.luau in one directory (anything two jobs might share by name); far too many jobs for the
@@ -199,7 +221,7 @@ fn scenarios(thorough: bool) -> Vec<Scn> {
                 want_files.insert(p, cli::lib_format(&text, &Default::default(), 120).unwrap().into_bytes());
             }
         }
-        v.push(Scn { desc: format!("C19 same-stem-pairs={} mode=write", pairs), tree, argv: vec!["--color".into(), "Never".into(), "--num-threads".into(), "4".into(), ".".into()], want_code: 0, want_files, sweep_only: true });
+        v.push(Scn { desc: format!("C19 same-stem-pairs={} mode=write", pairs), tree, argv: vec!["--color".into(), "Never".into(), "--num-threads".into(), "4".into(), ".".into()], want_code: 0, want_files, sweep_only: true, closed_stdout: false });
     }
     v
 }
@@ -414,7 +436,7 @@ pub fn c19(thorough: bool, stats: &mut Stats) -> Vec<Failure> {
                 if let Some(p) = argv.iter().position(|a| a == "--num-threads") {
                     argv[p + 1] = nt.to_string();
                 }
-                let o = cli::execute(500000 + k, &sc.tree, &Run { argv, env: vec![("STYLUA_VERIF_FAULTS".into(), "1".into())], ..Run::default() });
+                let o = cli::execute(500000 + k, &sc.tree, &Run { argv, env: vec![("STYLUA_VERIF_FAULTS".into(), "1".into())], close_stdout: sc.closed_stdout, ..Run::default() });
                 let mut files = BTreeMap::new();
                 for (p, v) in &o.after {
                     if p.ends_with(".lua") || p.ends_with(".luau") {
